@@ -979,4 +979,82 @@ func runC03(r *Run) {
 	ruleSpeculativeStores(r, "R03.7")
 	ruleClassification(r, "R03.8")
 	ruleFlushPathPanics(r, "R03.10")
+	r.floor("R03.11", 9)
+	ruleMemoryImageBounds(r, "R03.11")
+}
+
+// ruleMemoryImageBounds: a line fetch may be issued for any address (a
+// wrong-path load is fetched before the branch resolves), so every read of the
+// memory image by a variant's memory-management code must be guarded against
+// running past the end of the image (out-of-range bytes read as 0).
+func ruleMemoryImageBounds(r *Run, rule string) {
+	w := r.W
+	for _, v := range variants(w) {
+		if v.pkg == nil || !v.pipelined() {
+			continue
+		}
+		for _, f := range v.pkg.Syntax {
+			for _, d := range f.Decls {
+				fd, ok := d.(*ast.FuncDecl)
+				if !ok || fd.Body == nil {
+					continue
+				}
+				// only functions that read the image
+				reads := false
+				ast.Inspect(fd.Body, func(n ast.Node) bool {
+					switch x := n.(type) {
+					case *ast.IndexExpr:
+						if ctxFieldWritten(v.info, x.X) == "Memory" {
+							reads = true
+						}
+					case *ast.SliceExpr:
+						if ctxFieldWritten(v.info, x.X) == "Memory" {
+							reads = true
+						}
+					}
+					return true
+				})
+				if !reads || !w.reachedFromRun(v, fd) {
+					continue
+				}
+				ba := &boundsAnalyser{w: w, lenSummary: map[*types.Func][2]int{}}
+				ba.analyseFunc(fd, v.pkg, declName(fd))
+				for _, s := range ba.sites {
+					if (s.kind != "index" && s.kind != "slice") || !strings.HasSuffix(s.target, ".Memory") || s.write {
+						continue
+					}
+					r.check(s.upper, rule, v.rel+"."+s.desc, s.pos, "a read of the memory image is guarded against running past its end (upper bound proved: %v; lower bound proved: %v)", s.upper, s.lower)
+				}
+			}
+		}
+	}
+}
+
+// reachedFromRun: is the function reachable from the variant's Run (dead helpers are not judged)?
+func (w *World) reachedFromRun(v *variant, fd *ast.FuncDecl) bool {
+	obj, _ := v.info.Defs[fd.Name].(*types.Func)
+	if obj == nil {
+		return false
+	}
+	// units are constructed in NewCPU and run through coroutines: search from every function of the package that Run reaches,
+	// approximated by: referenced from any other function of the package
+	for _, f := range v.pkg.Syntax {
+		for _, d := range f.Decls {
+			fd2, ok := d.(*ast.FuncDecl)
+			if !ok || fd2.Body == nil || fd2 == fd {
+				continue
+			}
+			found := false
+			ast.Inspect(fd2.Body, func(n ast.Node) bool {
+				if id, ok := n.(*ast.Ident); ok && v.info.Uses[id] == obj {
+					found = true
+				}
+				return true
+			})
+			if found {
+				return true
+			}
+		}
+	}
+	return false
 }
